@@ -211,7 +211,7 @@ fn check(c: &Case, info: &mut Info) -> Result<(), String> {
 pub fn run(ctx: &mut Ctx) {
     ctx.rule("case = source archive (crate-written program or independent-builder spec: all methods incl. ids the crate cannot decode, data descriptors, forced ZIP64, any DOS time bits, DOS/Unix/other attributes, CP437 names) opened through a reader with a generated short-read schedule x destination program interleaving raw copies (with/without rename) with ordinary entries of every kind. Oracle: destination raw bytes == source raw bytes; method, CRC, sizes, timestamp words equal; permission bits equal when the source states a mode; decoded content equal where decodable; neighbours intact; strict parse of the destination. Non-trivial = a copy of non-empty data with a normally written neighbour.");
     ctx.assume("a source without a Unix mode (unix_mode()==None) states no permission bits, so nothing is compared for it; file-type bits are not part of the claim");
-    let n = ctx.q(1000, 20000);
+    let n = ctx.q(8000, 80000);
     let maxc = ctx.q(200_000u32, 4 << 20);
     ctx.explore::<Case>(
         "copies",
